@@ -370,6 +370,8 @@ def _isinstance(eng, x, t):
                     continue
                 if c.name == "str" and is_zstr(x):
                     return True
+                if c.name == "bool" and is_zbool(x):
+                    return True
                 if c.name == "float" and is_num(x) and not x.is_int():
                     return True
                 if c.name == "int" and is_num(x) and x.is_int():
